@@ -324,6 +324,33 @@ func runGuardedRules(p *Program, id string) ([]*Gen, []string) {
 							}
 						}
 					}
+					if names := kv["carried-only-by-innermost-loop"]; names != "" && holds {
+						// `carried-only-by-innermost-loop=A,B`: of the loops around the site only the innermost one carries the
+						// variable from iteration to iteration; an outer loop starts each of its iterations with a fresh value
+						// (per-item decoder state that must not leak from one item to the next)
+						for _, nm := range splitList(names, ",") {
+							count := 0
+							for h := in.Block(); h != nil; h = h.Idom() {
+								isHeader := false
+								for _, pr := range h.Preds {
+									if h.Dominates(pr) {
+										isHeader = true
+									}
+								}
+								if !isHeader {
+									continue
+								}
+								for _, x := range h.Instrs {
+									if ph, ok := x.(*ssa.Phi); ok && ph.Comment == nm {
+										count++
+									}
+								}
+							}
+							if count > 1 {
+								holds, missing = false, "`"+nm+"` to start afresh in every iteration of the outer loop (an outer loop header carries it over as well)"
+							}
+						}
+					}
 					if ps := kv["preceded-by-send"]; ps != "" && holds {
 						// `preceded-by-send=PATTERN`: a (possibly conditional) send on a matching channel lies between the site's
 						// immediate dominator and the site: in the site's block before it, or in a block that the immediate
